@@ -31,7 +31,7 @@ TECHNIQUE = "runtime monitoring: recording sub-term providers bound to a brute-f
 ASSUMPTIONS = ["brute-force enumeration of the word classes is the ground truth"]
 N = {"quick": 6, "thorough": 8}
 FLOORS = {
-    "quick": {"nontrivial": 300, "counters": {"rules.evaluations_compared": 60000, "rules.forms_built": 6000},
+    "quick": {"nontrivial": 300, "counters": {"rules.evaluations_compared": 45000, "rules.forms_built": 6000},
               "seen": {"rules.form": 6, "rules.constructor": 4}},
     "thorough": {"nontrivial": 6000, "counters": {"rules.evaluations_compared": 1500000, "rules.forms_built": 120000},
                  "seen": {"rules.form": 6, "rules.constructor": 4}},
